@@ -378,8 +378,14 @@ def run_real_session(wd, probe, argv, script, random_choice=None):
                                                                  r.get_number_of_data_points()) for r in runs}
         return orig(self, runs, *a, **kw)
     rb_main.ReBench.execute_experiment = grab
+    disk = []
+
+    def snapshotting(rec):
+        # what is on disk while this process "runs": everything persisted before must have been flushed
+        disk.append([read_text(os.path.join(wd, f)) for f in probe.files])
+        return script(rec)
     try:
-        res = drive.run_session(wd, [conf] + list(argv), script, random_choice=random_choice)
+        res = drive.run_session(wd, [conf] + list(argv), snapshotting, random_choice=random_choice)
     finally:
         rb_main.ReBench.execute_experiment = orig
         release_hanging()
@@ -395,6 +401,7 @@ def run_real_session(wd, probe, argv, script, random_choice=None):
     ob.stdout = res.stdout
     ob.stderr = res.stderr
     ob.files = [read_text(os.path.join(wd, f)) for f in probe.files]
+    ob.disk_at_start = disk
     return ob
 
 
